@@ -86,7 +86,7 @@ AXES = [
     ("tp_time", [(t, _tp0(time=t)) for t in ("0.5", "-0.25", "1234.5678")]),
     ("beat_length", [(b, _tp0(bl=b)) for b in ("333.3333333333333", "1", "60000", "0.1234")]),
     ("meter", [(str(m), _tp0(meter=m)) for m in (1, 3, 7)]),
-    ("tp_fields", [("kiai", _tp0(fx=1)), ("ss2si3", _tp0(ss=2, si=3)), ("vol100", _tp0(vol=100))]),
+    ("tp_fields", [("kiai", _tp0(fx=1)), ("fx8-omit-barline-only", _tp0(fx=8)), ("fx9-kiai+omit-barline", _tp0(fx=9)), ("ss2si3", _tp0(ss=2, si=3)), ("vol100", _tp0(vol=100))]),
     ("hitsound", [("hs2", _obj0(hs=2)), ("hs14", _obj0(hs=14)), ("ss1ads2", _obj0(ss=1, ads=2)), ("ss3ads3", _obj0(ss=3, ads=3)),
                   ("ci1", _obj0(ci=1)), ("ci99", _obj0(ci=99)), ("vol50", _obj0(vol=50)), ("vol100", _obj0(vol=100)), ("hs8all", _allobjs(hs=8))]),
     ("hs_file", [(f, _obj0(file=f)) for f in ("a.wav", "dir/b c.ogg", "é.wav")]),
@@ -100,6 +100,7 @@ AXES = [
         # Unicode line-boundary characters inside a value are characters of the value (lines end with \n only)
         ("TitleUnicode", "a\u2028b"), ("Version", "a\u0085b")]]),
     ("meta_num", [("preview", _meta("PreviewTime", "86398")), ("preview-7-digits", _meta("PreviewTime", "1234567")), ("leadin-7-digits", _meta("AudioLeadIn", "1000001")),
+                  ("floats-exponent", lambda d: d["meta"].update(SliderMultiplier="1e-10", DistanceSpacing="2.5e-10", TimelineZoom="1.5e+20", ApproachRate="3e+30")),
                   ("floats-8-digits", lambda d: d["meta"].update(SliderMultiplier="1.2345678", DistanceSpacing="0.12345678", TimelineZoom="2.3456789", HPDrainRate="7.1234567", StackLeniency="0.12345678")), ("leadin", _meta("AudioLeadIn", "500")), ("hp0", _meta("HPDrainRate", "0")),
                   ("ids", lambda d: d["meta"].update(BeatmapID="2062527", BeatmapSetID="-1")), ("sampleset_none", _meta("SampleSet", "None"))]),
     ("samples", [("one", _samples([(24565, "clap.wav", 70)])), ("two_same_time", _samples([(100, "a.wav", 70), (100, "b.wav", 30)])),
